@@ -5,6 +5,7 @@ import (
 	"go/ast"
 	"go/token"
 	"go/types"
+	"math/big"
 	"sort"
 	"strings"
 
@@ -29,16 +30,17 @@ const (
 )
 
 func init() {
-	register("C13", "other", "T8 DecisionTable (normalised guards, field coverage), T4 GuardedBy, T2 Dominates (loop-aware), T7 Pairing (fold on every iteration)",
-		"Decides the decision tables of the event checkers, written from the property text and compared with the code up to comparison normalisation: "+
-			"checkLimits rejects each of Seq, Epoch, Frame, Lamport at >= 2^31-2 and checkInited rejects each at zero and rejects Seq > 1 without parents; basiccheck.Validate propagates both and rejects len(Parents().Set()) != len(Parents()) (Events.Set inserts every element); "+
+	register("C13", "other", "T8 DecisionTable (normalised guards, field coverage) over an inlined, value-tracking view, T4 GuardedBy, T2 Dominates (loop-aware), T7 Pairing (fold on every iteration)",
+		"Decides the decision tables of the event checkers, written from the property text and compared with the code up to comparison normalisation. "+
+			"Each table is decided on an inlined view of the checker's entry point: helpers of the same package and local closures are spliced at their call sites (parameters bound to the arguments, bounded depth), error/boolean locals and helper results are followed as values (nil, non-nil, the verdict of another checker, a condition), and a branch is read as the disjoint alternatives of its condition - so it does not matter whether a test lives in the entry point, in a helper or in a predicate, whether errors are returned early or through one result variable, or whether a chain is written with if, switch or ||. "+
+			"basiccheck.Validate rejects each of Seq, Epoch, Frame, Lamport at >= 2^31-2 and at zero, rejects Seq > 1 without parents and rejects len(Parents().Set()) != len(Parents()) (Events.Set inserts every element); "+
 			"epochcheck rejects Epoch != current epoch and then a creator that is not in the current validators, both taken from one GetEpochValidators call; "+
 			"parentscheck folds the maximum Lamport time from 0 over every element of the parents list (idx.MaxLamport returns the larger argument) and rejects Lamport != max+1, evaluates 'created by the event's creator xor IsSelfParent' for every parent, rejects (Seq == 1) xor (SelfParent == nil), and when a self-parent exists rejects parents[0] not being it and Seq != parents[0].Seq+1; "+
-			"Checkers.Validate passes its own arguments to all three checkers and propagates each error. For every row: the edge on which the bad condition holds reaches only returns of a non-nil error (or a panic), and every accepting return is reachable only through the complementary edge (for per-parent rows: on every iteration of a complete range over all parents, whose exit dominates the accepting return). Rejecting guards that are not in the table are reported as undecided (they may narrow acceptance). "+
+			"Checkers.Validate passes its own arguments to all three checkers and propagates each error. For every row: some edge on which the bad condition holds reaches only non-nil error results (or a panic), and every accepting result is reachable only through an edge implying the negated condition (for per-parent rows: on every iteration of a complete loop over all parents, whose exit every accepting path passes). Rejecting guards that are not in the table are reported as undecided (they may narrow acceptance). "+
 			"BaseEvent.SelfParent is nil exactly on seq <= 1 or no parents and otherwise &parents[0]; IsSelfParent compares with it; the getters return their own fields. "+
-			"Loops over the parents are read as iterations (a range, or a counted loop from 0 to len of either parents list whose index is not modified in the body); temporaries defined at their declaration (`sp := e.SelfParent()`, `first := parents[0]`) stand for their defining expression. "+
+			"Loops over the parents are read as iterations (a range, or a counted loop from 0 to len of either parents list, the length possibly hoisted, whose index is not modified in the body); temporaries defined at their declaration (`sp := e.SelfParent()`, `first := parents[0]`) stand for their defining expression. "+
 			"Not decided: the enumeration of boundary inputs itself, uint32 wrap of max+1 / Seq+1 (excluded by the limits check only for the event's own fields), Event implementations other than BaseEvent, the caller contract that the parents argument lists the events of e.Parents() in order, pos.Validators.Exists being a membership test (C12).",
-		[]string{"the parents argument of parentscheck lists exactly the events named by e.Parents(), in the same order (caller contract, enforced only by length)", "errors.New / fmt.Errorf return non-nil errors", "pos.Validators.Exists is a membership test of the current validator group"},
+		[]string{"the parents argument of parentscheck lists exactly the events named by e.Parents(), in the same order (caller contract, enforced only by length)", "errors.New / fmt.Errorf return non-nil errors", "pos.Validators.Exists is a membership test of the current validator group", "helpers spliced into the view have no effect on the verdict other than through their result (they are read as pure)"},
 		runC13)
 }
 
@@ -76,8 +78,25 @@ func c13LinAtom(lc core.LinCmp) c13Atom {
 	return c13Atom{sb.String() + " " + lc.Op + " 0", false}
 }
 
+// c13NegOf records the canonical negation of the table atoms that are inequalities: not (F <= 0) is
+// -F + 1 <= 0 over the integers (other atoms are negated by c13Not).
+var c13NegOf = map[string]string{}
+
 // c13L turns a table entry over role names ("2 - seq <= 0") into its atom string.
-func c13L(s string) string { return c13LinAtom(core.ParseLinCmp(s)).String() }
+func c13L(s string) string {
+	lc := core.ParseLinCmp(s)
+	a := c13LinAtom(lc).String()
+	if lc.Op == "<=" {
+		n := &core.Lin{Coef: map[string]*big.Int{}, Atom: map[string]ast.Expr{}, C: new(big.Int)}
+		for k, cf := range lc.Form.Coef {
+			n.Coef[k] = new(big.Int).Neg(cf)
+		}
+		n.C.Neg(lc.Form.C)
+		n.C.Add(n.C, big.NewInt(1))
+		c13NegOf[a] = c13LinAtom(core.LinCmp{Form: n, Op: "<="}).String()
+	}
+	return a
+}
 
 // c13Not negates an atom string.
 func c13Not(a string) string {
@@ -85,6 +104,14 @@ func c13Not(a string) string {
 		return a[2 : len(a)-1]
 	}
 	return "!(" + a + ")"
+}
+
+// c13NegAtom: the canonical atom that holds exactly when a does not.
+func c13NegAtom(a string) string {
+	if n, ok := c13NegOf[a]; ok {
+		return n
+	}
+	return c13Not(a)
 }
 
 // c13Xor is the table form of "a xor b" over positive atoms.
@@ -102,6 +129,9 @@ func c13And(atoms ...string) string {
 	return strings.Join(s, " && ")
 }
 
+// c13Atoms splits a conjunction built by c13And.
+func c13Atoms(alt string) []string { return strings.Split(alt, " && ") }
+
 // c13Loop is an iteration over the parents, however it is written (core.IterationOf): a range over the
 // list, or a counted loop `for i := 0; i < len(list); i++` whose elements are list[i].
 type c13Loop struct {
@@ -109,8 +139,9 @@ type c13Loop struct {
 	body     *ast.BlockStmt
 	kind     string // "events": iterates the parents argument; "ids": iterates e.Parents()
 	key, val *types.Var
-	partial  string // non-empty: why the loop does not visit every element exactly once
-	from     int    // first index visited: 0, or 1 for `for i := 1; i < len(list); i++` (element 0 is skipped)
+	partial  string  // non-empty: why the loop does not visit every element exactly once
+	from     int     // first index visited: 0, or 1 for `for i := 1; i < len(list); i++` (element 0 is skipped)
+	env      *c13Env // the frame the loop belongs to
 }
 
 // c13Iteration recognises loop as an iteration over a collection accepted by isColl (which returns the
@@ -120,7 +151,7 @@ func c13Iteration(f *core.FuncInfo, loop ast.Stmt, isColl func(ast.Expr) string)
 	if rs, ok := loop.(*ast.RangeStmt); ok && rs.Tok != token.DEFINE && (rs.Key != nil || rs.Value != nil) {
 		return nil
 	}
-	it, ok := core.IterationOf(f, loop, func(e ast.Expr) ast.Expr { return resolveLocal(f, e) })
+	it, ok := c13IterationOf(f, loop, func(e ast.Expr) ast.Expr { return resolveLocal(f, e) })
 	if !ok || it.Coll == nil || it.Body == nil {
 		return nil
 	}
@@ -132,10 +163,8 @@ func c13Iteration(f *core.FuncInfo, loop ast.Stmt, isColl func(ast.Expr) string)
 	if it.Counted {
 		if !it.FromZero {
 			l.partial = "the counted loop does not start at index 0"
-			if fs, ok := loop.(*ast.ForStmt); ok {
-				if as, ok := fs.Init.(*ast.AssignStmt); ok && len(as.Rhs) == 1 && core.IsConstInt(f.Info(), core.StripConv(f.Info(), as.Rhs[0]), 1) {
-					l.partial, l.from = "", 1
-				}
+			if init := c13LoopInit(f, loop, it.Index); init != nil && core.IsConstInt(f.Info(), core.StripConv(f.Info(), init), 1) {
+				l.partial, l.from = "", 1
 			}
 		}
 		for _, a := range assignsToVar(f, it.Index) {
@@ -166,56 +195,96 @@ func (l *c13Loop) contains(n ast.Node) bool {
 	return l.body.Pos() <= n.Pos() && n.End() <= l.body.End()
 }
 
-// c13Env resolves expressions of one checker function to role names (through objects, never text).
+// c13Env resolves expressions of one frame of a view to role names (through objects, never text).
 type c13Env struct {
 	f       *core.FuncInfo
+	vw      *c13View
+	fr      *c13Frame
+	up      *c13Env    // the calling frame's environment (nil for the root)
 	ev      *types.Var // the event under validation (parameter, or receiver for BaseEvent methods)
 	parents *types.Var // the parents argument (parentscheck only)
 	self    bool       // ev is a *BaseEvent receiver: fields and BaseEvent methods count
 	vars    map[*types.Var]string
 	loops   []*c13Loop
-	used    map[ast.Stmt]bool   // loops whose variables the current fact mentions
 	alias   map[*types.Var]bool // single-assignment local copies of ev
 	custom  core.AtomNamer      // additional role names (used by C31, which shares the table machinery)
-	retMsg  string              // what an unclassified return means for this table (default: the checkers' wording)
 }
 
 var c13Getters = map[string]string{"Seq": "seq", "Epoch": "epoch", "Frame": "frame", "Lamport": "lamport", "Creator": "creator"}
 
-func c13NewEnv(f *core.FuncInfo, ev, parents *types.Var, self bool, errCallees ...string) *c13Env {
-	env := &c13Env{f: f, ev: ev, parents: parents, self: self, vars: map[*types.Var]string{}, used: map[ast.Stmt]bool{}, alias: map[*types.Var]bool{}}
-	{
-		count := map[*types.Var]int{}
-		for _, a := range assignments(f) {
-			if v := varOf(f, a.LHS); v != nil {
-				count[v]++
+// c13BareEnv: an environment without event roles (C31 names its atoms through `custom`).
+func c13BareEnv(vw *c13View, fr *c13Frame) *c13Env {
+	env := &c13Env{f: fr.f, vw: vw, fr: fr, vars: map[*types.Var]string{}, alias: map[*types.Var]bool{}}
+	if fr.parent != nil {
+		env.up = fr.parent.env
+	}
+	return env
+}
+
+// c13MkEnv builds the environments of a view whose root validates ev (with the parents argument ps):
+// in a spliced frame the roles belong to the parameters bound to expressions that carry them in the
+// calling frame (closures see the captured variables themselves).
+func c13MkEnv(ev, ps *types.Var, self bool) func(*c13View, *c13Frame) *c13Env {
+	return func(vw *c13View, fr *c13Frame) *c13Env {
+		if fr.parent == nil {
+			return c13NewEnv(vw, fr, ev, ps, self)
+		}
+		up := fr.parent.env
+		var cev, cps *types.Var
+		for p, arg := range fr.bind {
+			if up.isEv(arg) {
+				cev = p
+			}
+			if up.isParentsArg(arg) {
+				cps = p
 			}
 		}
-		for _, a := range assignments(f) {
-			if v := varOf(f, a.LHS); v != nil && count[v] == 1 && a.RHS != nil && ev != nil && varOf(f, a.RHS) == ev {
-				env.alias[v] = true
+		cself := false
+		if fr.f.Lit != nil {
+			if cev == nil {
+				cev, cself = up.ev, up.self
 			}
+			if cps == nil {
+				cps = up.parents
+			}
+		} else if up.self && cev != nil && cev == fr.f.Recv() {
+			cself = true
+		}
+		return c13NewEnv(vw, fr, cev, cps, cself)
+	}
+}
+
+func c13NewEnv(vw *c13View, fr *c13Frame, ev, parents *types.Var, self bool) *c13Env {
+	f := fr.f
+	env := c13BareEnv(vw, fr)
+	env.ev, env.parents, env.self = ev, parents, self
+	all := assignments(f)
+	count := map[*types.Var]int{}
+	for _, a := range all {
+		if v := varOf(f, a.LHS); v != nil {
+			count[v]++
+		}
+	}
+	for _, a := range all {
+		if v := varOf(f, a.LHS); v != nil && count[v] == 1 && a.RHS != nil && ev != nil && varOf(f, a.RHS) == ev {
+			env.alias[v] = true
 		}
 	}
 	// iterations over the parents argument or over e.Parents(), written as a range or as a counted loop
 	// (the two lists have the same length behind the arity guard, so either bound visits every index)
 	env.loops = c13Loops(f, func(coll ast.Expr) string {
 		switch {
-		case parents != nil && varOf(f, coll) == parents:
+		case env.isParentsArg(coll):
 			return "events"
 		case env.isParentsCall(coll):
 			return "ids"
 		}
 		return ""
 	})
-	// single-assignment locals
-	count := map[*types.Var]int{}
-	all := assignments(f)
-	for _, a := range all {
-		if v := varOf(f, a.LHS); v != nil {
-			count[v]++
-		}
+	for _, l := range env.loops {
+		l.env = env
 	}
+	// single-assignment locals
 	for _, a := range all {
 		v := varOf(f, a.LHS)
 		if v == nil || count[v] != 1 || a.RHS == nil {
@@ -223,8 +292,7 @@ func c13NewEnv(f *core.FuncInfo, ev, parents *types.Var, self bool, errCallees .
 		}
 		rhs := ast.Unparen(a.RHS)
 		if call, ok := rhs.(*ast.CallExpr); ok {
-			nm := calleeName(f, call)
-			if nm == c13Reader {
+			if calleeName(f, call) == c13Reader {
 				if as, ok := a.Stmt.(*ast.AssignStmt); ok && len(as.Lhs) == 2 && len(as.Rhs) == 1 {
 					if as.Lhs[0] == a.LHS {
 						env.vars[v] = "validators"
@@ -233,17 +301,12 @@ func c13NewEnv(f *core.FuncInfo, ev, parents *types.Var, self bool, errCallees .
 					}
 				}
 			}
-			for _, ec := range errCallees {
-				if nm == ec {
-					env.vars[v] = "err:" + ec
-				}
-			}
 		}
-		if ix, ok := rhs.(*ast.IndexExpr); ok && parents != nil && varOf(f, ix.X) == parents && core.IsConstInt(f.Info(), ix.Index, 0) {
+		if ix, ok := rhs.(*ast.IndexExpr); ok && env.isParentsArg(ix.X) && core.IsConstInt(f.Info(), ix.Index, 0) {
 			env.vars[v] = "p0"
 		}
 	}
-	// the running maximum: an integer local declared outside, assigned inside, a range over the parents
+	// the running maximum: an integer local declared outside, assigned inside, a loop over the parents
 	nMax := 0
 	for _, a := range all {
 		v := varOf(f, a.LHS)
@@ -270,9 +333,36 @@ func c13NewEnv(f *core.FuncInfo, ev, parents *types.Var, self bool, errCallees .
 
 func c13IsRange(n ast.Node) bool { _, ok := n.(*ast.RangeStmt); return ok }
 
+// outer: the expression denotes a value of the calling frame - a parameter bound to an argument
+// expression, or (function literals) a captured variable of the enclosing function.
+func (env *c13Env) outer(e ast.Expr) (*c13Env, ast.Expr) {
+	if env.up == nil {
+		return nil, nil
+	}
+	v := varOf(env.f, e)
+	if v == nil {
+		return nil, nil
+	}
+	if arg, ok := env.fr.bind[v]; ok {
+		return env.up, arg
+	}
+	if lit := env.f.Lit; lit != nil && !(lit.Pos() <= v.Pos() && v.Pos() < lit.End()) && v.Pkg() != nil && v.Parent() != v.Pkg().Scope() && !v.IsField() {
+		return env.up, e
+	}
+	return nil, nil
+}
+
+// used marks a loop whose variables the atom being named mentions.
+func (env *c13Env) used(l *c13Loop) {
+	if env.vw != nil {
+		env.vw.used[l] = true
+	}
+}
+
 // res looks through temporaries: an identifier that reads a local with exactly one plain definition
 // (and no role of its own) stands for its defining expression, e.g. `sp := e.SelfParent(); if sp == nil`.
-// Locals that snapshot a location written in the function are left alone (helpers: resolveLocal rules).
+// Locals that snapshot a location written in the function are left alone (helpers: resolveLocal rules),
+// and so are locals whose value the view's state knows.
 func (env *c13Env) res(e ast.Expr) ast.Expr {
 	f := env.f
 	e = ast.Unparen(e)
@@ -283,6 +373,9 @@ func (env *c13Env) res(e ast.Expr) ast.Expr {
 		}
 		v, _ := f.Info().ObjectOf(id).(*types.Var)
 		if v == nil || env.vars[v] != "" || v == env.ev || env.alias[v] || lhsIdents(f)[id] {
+			return e
+		}
+		if env.vw != nil && env.vw.hasState(env.fr, id) {
 			return e
 		}
 		d := singleDef(f, v)
@@ -297,12 +390,14 @@ func (env *c13Env) res(e ast.Expr) ast.Expr {
 // c13DefinedAtDecl: the single definition d of v is its declaration (`v := d` / `var v = d`), so every
 // use of v is dominated by it (a `var v T` followed by a conditional `v = d` is not looked through).
 func c13DefinedAtDecl(f *core.FuncInfo, v *types.Var, d ast.Expr) bool {
-	for _, a := range assignments(f) {
-		if a.RHS != d {
-			continue
-		}
-		if id, ok := ast.Unparen(a.LHS).(*ast.Ident); ok && f.Info().Defs[id] == types.Object(v) {
-			return true
+	for g := f; g != nil; g = g.Parent {
+		for _, a := range assignments(g) {
+			if a.RHS != d {
+				continue
+			}
+			if id, ok := ast.Unparen(a.LHS).(*ast.Ident); ok && g.Info().Defs[id] == types.Object(v) {
+				return true
+			}
 		}
 	}
 	return false
@@ -311,7 +406,47 @@ func c13DefinedAtDecl(f *core.FuncInfo, v *types.Var, d ast.Expr) bool {
 // isEv: the expression is the event under validation.
 func (env *c13Env) isEv(e ast.Expr) bool {
 	v := varOf(env.f, e)
-	return env.ev != nil && v != nil && (v == env.ev || env.alias[v])
+	if v == nil {
+		return false
+	}
+	if env.ev != nil && (v == env.ev || env.alias[v]) {
+		return true
+	}
+	if up, arg := env.outer(e); up != nil {
+		return up.isEv(arg)
+	}
+	return false
+}
+
+// isParentsArg: the expression is the parents argument of the checker.
+func (env *c13Env) isParentsArg(e ast.Expr) bool {
+	e = env.res(e)
+	v := varOf(env.f, e)
+	if v == nil {
+		return false
+	}
+	if env.parents != nil && v == env.parents {
+		return true
+	}
+	if up, arg := env.outer(e); up != nil {
+		return up.isParentsArg(arg)
+	}
+	return false
+}
+
+// roleOf: the role name of a variable expression (through bound parameters).
+func (env *c13Env) roleOf(e ast.Expr) string {
+	v := varOf(env.f, e)
+	if v == nil {
+		return ""
+	}
+	if r := env.vars[v]; r != "" {
+		return r
+	}
+	if up, arg := env.outer(e); up != nil {
+		return up.roleOf(arg)
+	}
+	return ""
 }
 
 // evCall: e is a call of the named dag.Event method (or the BaseEvent method, for receivers) with no
@@ -342,6 +477,9 @@ func (env *c13Env) isParentsCall(e ast.Expr) bool {
 			return true
 		}
 	}
+	if up, arg := env.outer(env.res(e)); up != nil {
+		return up.isParentsCall(arg)
+	}
 	return false
 }
 
@@ -360,27 +498,43 @@ func (env *c13Env) parentElem(e ast.Expr) string {
 		}
 		for _, l := range env.loops {
 			if l.kind == "events" && l.val == v {
-				env.used[l.stmt] = true
+				env.used(l)
 				return "p"
 			}
 		}
+		if up, arg := env.outer(x); up != nil {
+			return up.parentElem(arg)
+		}
 	case *ast.IndexExpr:
-		if env.parents == nil || varOf(f, env.res(x.X)) != env.parents {
+		if !env.isParentsArg(x.X) {
 			return ""
 		}
 		if core.IsConstInt(f.Info(), x.Index, 0) {
 			return "p0"
 		}
-		if kv := varOf(f, x.Index); kv != nil {
-			for _, l := range env.loops {
-				if l.key == kv {
-					env.used[l.stmt] = true
-					return "p"
-				}
-			}
+		if l := env.loopOfKey(x.Index); l != nil {
+			l.env.used(l)
+			return "p"
 		}
 	}
 	return ""
+}
+
+// loopOfKey: the loop (of this or a calling frame) whose index variable the expression is.
+func (env *c13Env) loopOfKey(e ast.Expr) *c13Loop {
+	kv := varOf(env.f, env.res(e))
+	if kv == nil {
+		return nil
+	}
+	for _, l := range env.loops {
+		if l.key == kv {
+			return l
+		}
+	}
+	if up, arg := env.outer(env.res(e)); up != nil {
+		return up.loopOfKey(arg)
+	}
+	return nil
 }
 
 // parentID: role of an expression denoting the hash of a parent: "pid" / "p0id".
@@ -400,21 +554,20 @@ func (env *c13Env) parentID(e ast.Expr) string {
 		if core.IsConstInt(f.Info(), x.Index, 0) {
 			return "p0id"
 		}
-		if kv := varOf(f, x.Index); kv != nil {
-			for _, l := range env.loops {
-				if l.key == kv {
-					env.used[l.stmt] = true
-					return "pid"
-				}
-			}
+		if l := env.loopOfKey(x.Index); l != nil {
+			l.env.used(l)
+			return "pid"
 		}
 	case *ast.Ident:
 		v := varOf(f, x)
 		for _, l := range env.loops {
 			if l.kind == "ids" && v != nil && l.val == v {
-				env.used[l.stmt] = true
+				env.used(l)
 				return "pid"
 			}
+		}
+		if up, arg := env.outer(x); up != nil {
+			return up.parentID(arg)
 		}
 	}
 	return ""
@@ -423,6 +576,11 @@ func (env *c13Env) parentID(e ast.Expr) string {
 // atom is the AtomNamer of the linear normaliser.
 func (env *c13Env) atom(e ast.Expr) string {
 	f := env.f
+	if env.vw != nil {
+		if s := env.vw.stateName(env.fr, e); s != "" {
+			return s
+		}
+	}
 	if env.custom != nil {
 		if s := env.custom(e); s != "" {
 			return s
@@ -434,7 +592,7 @@ func (env *c13Env) atom(e ast.Expr) string {
 		if nm == "builtin.len" && len(x.Args) == 1 {
 			arg := env.res(x.Args[0])
 			switch {
-			case env.parents != nil && varOf(f, arg) == env.parents:
+			case env.isParentsArg(arg):
 				return "nargs"
 			case env.isParentsCall(arg):
 				return "nparents"
@@ -465,6 +623,9 @@ func (env *c13Env) atom(e ast.Expr) string {
 			if r := env.res(x); r != ast.Expr(x) {
 				return env.atom(r)
 			}
+			if up, arg := env.outer(x); up != nil {
+				return up.atom(c13StripSameRepr(up.f.Info(), arg))
+			}
 		}
 	case *ast.SelectorExpr:
 		if env.self && env.isEv(x.X) {
@@ -476,13 +637,40 @@ func (env *c13Env) atom(e ast.Expr) string {
 	return ""
 }
 
+// c13StripSameRepr removes conversions that keep the representation (T(x) where T and the type of x have
+// the same underlying basic kind, e.g. uint32(idx.Event)); conversions that may truncate or change
+// signedness are kept, so the value is not taken for the original.
+func c13StripSameRepr(info *types.Info, e ast.Expr) ast.Expr {
+	for {
+		e = ast.Unparen(e)
+		call, ok := e.(*ast.CallExpr)
+		if !ok || len(call.Args) != 1 {
+			return e
+		}
+		tv, ok := info.Types[call.Fun]
+		if !ok || !tv.IsType() {
+			return e
+		}
+		to, ok1 := tv.Type.Underlying().(*types.Basic)
+		at, ok := info.Types[call.Args[0]]
+		if !ok || at.Type == nil {
+			return e
+		}
+		from, ok2 := at.Type.Underlying().(*types.Basic)
+		if !ok1 || !ok2 || to.Kind() != from.Kind() {
+			return e
+		}
+		e = call.Args[0]
+	}
+}
+
 func (env *c13Env) boolAtom(e ast.Expr) string {
 	f := env.f
 	if call, ok := env.res(e).(*ast.CallExpr); ok {
 		nm := calleeName(f, call)
 		sel, _ := ast.Unparen(call.Fun).(*ast.SelectorExpr)
 		if nm == c13Exists && sel != nil && len(call.Args) == 1 {
-			if v := varOf(f, sel.X); v != nil && env.vars[v] == "validators" && env.atom(call.Args[0]) == "creator" {
+			if env.roleOf(sel.X) == "validators" && env.atom(call.Args[0]) == "creator" {
 				return "exists(creator)"
 			}
 		}
@@ -492,6 +680,9 @@ func (env *c13Env) boolAtom(e ast.Expr) string {
 			}
 		}
 	}
+	if up, arg := env.outer(env.res(e)); up != nil {
+		return up.boolAtom(arg)
+	}
 	return "?" + exprStr(e)
 }
 
@@ -499,8 +690,11 @@ func (env *c13Env) ptrAtom(e ast.Expr) string {
 	if r := env.evCall(e, "SelfParent"); r != nil && env.isEv(r) {
 		return "selfParent"
 	}
-	if v := varOf(env.f, e); v != nil && env.vars[v] != "" {
-		return env.vars[v]
+	if r := env.roleOf(env.res(e)); r != "" {
+		return r
+	}
+	if up, arg := env.outer(env.res(e)); up != nil {
+		return up.ptrAtom(arg)
 	}
 	return "?" + exprStr(e)
 }
@@ -522,6 +716,17 @@ func (env *c13Env) atomOf(ft core.Fact) c13Atom {
 		return c13Atom{base: "?" + exprStr(ft.Expr)}
 	}
 	if cm.R == nil {
+		// a boolean whose value the view's state knows as a single condition (a local assigned a comparison,
+		// the result of a spliced predicate) stands for that condition
+		if env.vw != nil {
+			if s, ok := env.vw.stateCond(env.fr, cm.L); ok {
+				a := c13Atom{base: s}
+				if strings.HasPrefix(s, "!(") && strings.HasSuffix(s, ")") {
+					a = c13Atom{base: s[2 : len(s)-1], neg: true}
+				}
+				return c13Atom{a.base, a.neg != (cm.Op == token.NEQ)}
+			}
+		}
 		// a boolean temporary stands for the comparison it was defined as
 		if r := env.res(cm.L); r != ast.Unparen(cm.L) {
 			if _, isCall := r.(*ast.CallExpr); !isCall {
@@ -551,38 +756,17 @@ func (env *c13Env) atomOf(ft core.Fact) c13Atom {
 	return c13Atom{base: "?" + exprStr(ft.Expr)}
 }
 
-// altKey canonicalises one alternative (a conjunction of facts); facts mentioning the variables of two
-// different loops cannot be given a per-parent meaning.
-func (env *c13Env) altKey(facts []core.Fact) string {
-	env.used = map[ast.Stmt]bool{}
-	var atoms []string
-	for _, ft := range facts {
-		atoms = append(atoms, env.atomOf(ft).String())
-	}
-	if len(env.used) > 1 {
-		return "?mixed-loops " + c13And(atoms...)
-	}
-	return c13And(atoms...)
-}
-
 // ---------------------------------------------------------------------------
-// returns
+// outcomes
 
 const (
 	c13Accept = iota
 	c13Reject
 	c13Delegate
 	c13Unknown
-	c13Skip // a return that is the subject of another table: owes nothing here
+	c13Skip  // a result that is the subject of another table: owes nothing here
+	c13Panic // the execution ends in a no-return call
 )
-
-type c13Ret struct {
-	pt     core.Point
-	stmt   *ast.ReturnStmt
-	kind   int
-	callee string
-	what   string
-}
 
 var c13AssignedGlobals map[types.Object]bool
 
@@ -634,38 +818,20 @@ func c13NonNilErrVar(p *core.Prog, v *types.Var) bool {
 	return false
 }
 
-// c13ErrReturns classifies the returns of a checker: nil accepts, a non-nil error object or a
-// propagated err (established non-nil on every path) rejects, a tail call of a checker delegates.
-func c13ErrReturns(env *c13Env, delegates ...string) []c13Ret {
-	f := env.f
-	var out []c13Ret
-	for _, pt := range f.ReturnPoints() {
-		r := pt.Node().(*ast.ReturnStmt)
-		ret := c13Ret{pt: pt, stmt: r, kind: c13Unknown}
-		if len(r.Results) == 1 {
-			e := ast.Unparen(r.Results[0])
-			ret.what = exprStr(e)
-			switch {
-			case core.IsNil(f.Info(), e):
-				ret.kind = c13Accept
-			case varOf(f, e) != nil:
-				v := varOf(f, e)
-				if c13NonNilErrVar(f.P, v) {
-					ret.kind = c13Reject
-				} else if strings.HasPrefix(env.vars[v], "err:") {
-					if ok, _ := f.GuardedBy(pt, varNilFact(f, v, false)); ok {
-						ret.kind = c13Reject
-					}
-				}
-			default:
-				if call := isCallTo(f, e, delegates...); call != nil {
-					ret.kind, ret.callee = c13Delegate, calleeName(f, call)
-				}
-			}
-		}
-		out = append(out, ret)
+// c13ErrKind classifies the result of a checker from its value in the view: nil accepts, a non-nil
+// error rejects, the untested error of another checker delegates the verdict to it.
+func c13ErrKind(o *c13Outcome) (int, string) {
+	switch {
+	case o.panic:
+		return c13Panic, ""
+	case o.val.kind == c13VNil:
+		return c13Accept, ""
+	case o.val.kind == c13VNonNil:
+		return c13Reject, ""
+	case o.val.kind == c13VCall:
+		return c13Delegate, o.val.origin
 	}
-	return out
+	return c13Unknown, ""
 }
 
 // ---------------------------------------------------------------------------
@@ -673,31 +839,37 @@ func c13ErrReturns(env *c13Env, delegates ...string) []c13Ret {
 
 type c13Row struct {
 	name    string
-	alts    []string // accepted canonical forms of the rejected condition (one alternative of a guard each)
+	alts    []string // accepted canonical forms of the rejected condition (each a conjunction built by c13And; every form is implied by the condition)
 	breaks  string   // what is wrongly accepted when the row is missing
 	unless  []string // atoms under which the row is not owed (escape edges)
-	loop    bool     // owed for every parent: guard on every iteration of a complete range over all parents
+	loop    bool     // owed for every parent: guard on every iteration of a complete loop over all parents
 	fromOne bool     // loop rows: owed only for elements 1.. (a relation between neighbours), so a loop from index 1 suffices
 	callee  string   // call rows: the checker whose error must be propagated
-	how     string   // pass text override (tables whose "rejecting" returns are not errors)
-	args    []*types.Var
+	how     string   // pass text override (tables whose "rejecting" results are not errors)
+	roles   []string // call rows: what the arguments must be ("ev", "parents")
 	tag     string
-}
-
-type c13Edge struct {
-	b    *cfg.Block
-	s    int
-	cond ast.Expr
-	alts []string
-	hit  []bool
+	quiet   bool // the row belongs to another clause: used to explain rejecting edges, not reported here
 }
 
 type c13Result struct {
 	guards int
 	byTag  map[string]int
-	edges  []*c13Edge
-	rets   []c13Ret
-	rowHit map[string][]*c13Edge
+	rowHit map[string][]*c13VEdge
+}
+
+type c13TableOpt struct {
+	kindOf func(*c13Outcome) (int, string)
+	retMsg string // what an unclassified result means for this table (default: the checkers' wording)
+	extras bool   // report rejecting guards that are not rows of the table
+}
+
+func c13LoopBody(f *core.FuncInfo, loop ast.Stmt) *cfg.Block {
+	for _, b := range f.CFG().Blocks {
+		if b.Stmt == loop && (b.Kind == cfg.KindRangeBody || b.Kind == cfg.KindForBody) {
+			return b
+		}
+	}
+	return nil
 }
 
 // c13BlocksFrom: blocks reachable from `from` (inclusive) without taking an avoided edge or entering an avoided block.
@@ -725,15 +897,6 @@ func c13BlocksFrom(from *cfg.Block, avoidEdge func(*cfg.Block, int) bool, avoidB
 	return seen
 }
 
-func c13LoopBody(f *core.FuncInfo, loop ast.Stmt) *cfg.Block {
-	for _, b := range f.CFG().Blocks {
-		if b.Stmt == loop && (b.Kind == cfg.KindRangeBody || b.Kind == cfg.KindForBody) {
-			return b
-		}
-	}
-	return nil
-}
-
 func (env *c13Env) loopOfStmt(s ast.Stmt) *c13Loop {
 	for _, l := range env.loops {
 		if l.stmt == s {
@@ -743,70 +906,121 @@ func (env *c13Env) loopOfStmt(s ast.Stmt) *c13Loop {
 	return nil
 }
 
-// c13Table compares the function with the table. rejectKind is the return kind that the bad edges must
-// lead to exclusively (c13Reject for the checkers).
-func c13Table(c *core.Ctx, env *c13Env, rets []c13Ret, rows []c13Row) *c13Result {
-	f := env.f
+func c13HasLoop(ls []*c13Loop, l *c13Loop) bool {
+	for _, m := range ls {
+		if m == l {
+			return true
+		}
+	}
+	return false
+}
+
+// c13Table compares the inlined view of a function with the table.
+func c13Table(c *core.Ctx, vw *c13View, rows []c13Row, opt c13TableOpt) *c13Result {
+	f := vw.root.f
 	who := short(f.Name)
-	res := &c13Result{byTag: map[string]int{}, rets: rets, rowHit: map[string][]*c13Edge{}}
-	kindOf := map[*ast.ReturnStmt]int{}
+	res := &c13Result{byTag: map[string]int{}, rowHit: map[string][]*c13VEdge{}}
+	if vw.overflow {
+		c.Undecided(who+"|inlined view", "T8 DecisionTable", f.Pos(), "the inlined view of the function exceeds the node budget: the table cannot be compared")
+		return res
+	}
+	kindOf := opt.kindOf
+	if kindOf == nil {
+		kindOf = c13ErrKind
+	}
+	outs := vw.outcomes()
+	kind := map[*c13Node]int{}
+	callee := map[*c13Node]string{}
 	unknown := false
-	for _, r := range rets {
-		kindOf[r.stmt] = r.kind
-		if r.kind == c13Unknown {
+	seenRet := map[*ast.ReturnStmt]bool{}
+	for _, n := range outs {
+		kind[n], callee[n] = kindOf(n.outcome)
+		if kind[n] == c13Unknown {
 			unknown = true
-			msg := "is neither nil, a never-reassigned non-nil error object, an error variable established non-nil, nor a delegated checker call: accept/reject cannot be classified"
-			if env.retMsg != "" {
-				msg = env.retMsg
+			if n.outcome.stmt != nil && !seenRet[n.outcome.stmt] {
+				seenRet[n.outcome.stmt] = true
+				msg := "is neither nil, a never-reassigned non-nil error object, an error established non-nil, nor a delegated checker call: accept/reject cannot be classified"
+				if opt.retMsg != "" {
+					msg = opt.retMsg
+				}
+				c.Undecided(who+"|return shape", "T8 DecisionTable", n.outcome.stmt.Pos(), "return of `"+n.outcome.what+"` "+msg)
 			}
-			c.Undecided(who+"|return shape", "T8 DecisionTable", r.stmt.Pos(), "return of `"+r.what+"` "+msg)
 		}
 	}
-	isReject := func(r *ast.ReturnStmt) bool { return kindOf[r] == c13Reject }
-	for _, b := range f.CFG().Blocks {
-		if !b.Live {
-			continue
-		}
-		cond := f.BranchCond(b)
-		if cond == nil {
-			continue
-		}
-		for s := 0; s < 2; s++ {
-			if ok, _ := edgeLeadsOnlyTo(f, b, s, isReject); !ok {
-				continue
-			}
-			e := &c13Edge{b: b, s: s, cond: cond}
-			for _, alt := range core.Disjuncts(cond, s == 0) {
-				e.alts = append(e.alts, env.altKey(alt))
-			}
-			e.hit = make([]bool, len(e.alts))
-			res.edges = append(res.edges, e)
+	// nodes from which a result other than a rejection is reachable
+	open := map[*c13Node]bool{}
+	var work []*c13Node
+	for _, n := range outs {
+		if kind[n] != c13Reject && kind[n] != c13Panic {
+			open[n] = true
+			work = append(work, n)
 		}
 	}
+	for len(work) > 0 {
+		n := work[0]
+		work = work[1:]
+		for _, e := range n.in {
+			if !open[e.from] {
+				open[e.from] = true
+				work = append(work, e.from)
+			}
+		}
+	}
+	// rejecting edges: the alternatives of a decision after which only rejections remain
+	type rejEdge struct {
+		e   *c13VEdge
+		ctx map[string]bool
+		hit bool
+	}
+	var rej []*rejEdge
+	for _, e := range vw.branchEdges() {
+		if len(e.atoms) == 0 || open[e.to] || !open[e.from] {
+			continue
+		}
+		re := &rejEdge{e: e, ctx: map[string]bool{}}
+		for _, a := range vw.ctxAtoms(e) {
+			re.ctx[a] = true
+		}
+		rej = append(rej, re)
+	}
+	entry := []*c13Node{vw.entry}
 	for _, row := range rows {
-		var hits []*c13Edge
-		for _, e := range res.edges {
-			for i, a := range e.alts {
-				for _, want := range row.alts {
-					if a == want {
-						e.hit[i] = true
-						hits = append(hits, e)
-					}
+		var hits []*c13VEdge
+		for _, re := range rej {
+			for _, alt := range row.alts {
+				all := true
+				for _, a := range c13Atoms(alt) {
+					all = all && re.ctx[a]
+				}
+				if all {
+					re.hit = true
+					hits = append(hits, re.e)
+					break
 				}
 			}
 		}
-		// call rows: arguments and tail calls
+		if row.quiet {
+			continue
+		}
+		// call rows: arguments and directly returned verdicts
 		delegated := false
 		if row.callee != "" {
-			for _, cs := range f.CallsTo(row.callee) {
-				okArgs := len(cs.Call.Args) == len(row.args)
-				for i := 0; okArgs && i < len(row.args); i++ {
-					okArgs = row.args[i] != nil && varOf(f, cs.Call.Args[i]) == row.args[i]
+			for _, fr := range vw.frames {
+				for _, cs := range fr.f.CallsTo(row.callee) {
+					okArgs := len(cs.Call.Args) == len(row.roles)
+					for i := 0; okArgs && i < len(row.roles); i++ {
+						switch row.roles[i] {
+						case "ev":
+							okArgs = fr.env.isEv(cs.Call.Args[i])
+						case "parents":
+							okArgs = fr.env.isParentsArg(cs.Call.Args[i])
+						}
+					}
+					c.Check(okArgs, who+"|"+row.name+" arguments", "provenance", cs.Pos(), "the checker is applied to this function's own event (and parents) argument", "the checker is applied to something other than the event (and parents) being validated: the verdict is about a different event")
 				}
-				c.Check(okArgs, who+"|"+row.name+" arguments", "provenance", cs.Pos(), "the checker is applied to this function's own event (and parents) argument", "the checker is applied to something other than the event (and parents) being validated: the verdict is about a different event")
 			}
-			for _, r := range rets {
-				if r.kind == c13Delegate && r.callee == row.callee {
+			for _, n := range outs {
+				if kind[n] == c13Delegate && callee[n] == row.callee {
 					delegated = true
 				}
 			}
@@ -821,166 +1035,180 @@ func c13Table(c *core.Ctx, env *c13Env, rets []c13Ret, rows []c13Row) *c13Result
 			}
 			continue
 		}
-		// the accepting returns owe the complementary edge
-		comp := map[*cfg.Block]int{}
-		for _, e := range hits {
-			comp[e.b] = e.s
-		}
-		escape := f.GuardEdges(func(ft core.Fact) bool {
-			a := env.atomOf(ft).String()
-			for _, u := range row.unless {
-				if a == u {
-					return true
-				}
+		// the results that owe the row: everything but rejections, and the verdict of the row's own checker
+		owes := func(n *c13Node) bool {
+			if n.outcome == nil {
+				return false
 			}
-			return false
-		})
-		ok := true
+			switch kind[n] {
+			case c13Reject, c13Panic, c13Skip:
+				return false
+			case c13Delegate:
+				return !(row.callee != "" && callee[n] == row.callee)
+			}
+			return true
+		}
+		// edges that imply the negated condition (or a condition under which the row is not owed)
+		negs := map[string]bool{}
+		for _, alt := range row.alts {
+			for _, a := range c13Atoms(alt) {
+				negs[c13NegAtom(a)] = true
+			}
+		}
+		for _, u := range row.unless {
+			negs[u] = true
+		}
 		pos := f.Pos()
 		if len(hits) > 0 {
 			pos = hits[0].cond.Pos()
 		}
-		fail := func(detail string) {
-			ok = false
-			c.Fail(construct, "T8 DecisionTable", pos, detail+": "+row.breaks)
-		}
-		for _, r := range rets {
-			if !ok {
-				break
-			}
-			if r.kind == c13Reject || r.kind == c13Skip || r.kind == c13Delegate && r.callee == row.callee && row.callee != "" {
-				continue
-			}
-			if row.loop {
-				for _, e := range hits {
-					ls := enclosingLoop(f, e.cond.Pos())
-					l := env.loopOfStmt(ls)
-					if l == nil {
-						fail("the guard is not inside an iteration over the whole parents list, so it is not evaluated once per parent")
-						break
-					}
-					if l.partial != "" {
-						fail("the loop around the guard does not visit every element (" + l.partial + ")")
-						break
-					}
-					if l.from > 0 && !row.fromOne {
-						fail("the loop around the guard starts at index 1: the first element is never tested")
-						break
-					}
-					done, complete := loopDone(f, l.stmt)
-					head, _ := f.LoopOf(l.stmt)
-					body := c13LoopBody(f, l.stmt)
-					if done == nil || head == nil || body == nil {
-						fail("loop structure not recognised")
-						break
-					}
-					if !complete {
-						fail("the loop over the parents can be left early (break), later parents are not checked")
-						break
-					}
-					reach := c13BlocksFrom(body, func(b *cfg.Block, s int) bool { return b == e.b && s == 1-e.s }, nil)
-					if reach[head] || reach[done] {
-						fail("an iteration can reach the next parent without evaluating the guard (some parents are skipped)")
-						break
-					}
-					if dom, path := mustPassBlockBefore(f, done, r.pt); !dom {
-						fail("the accepting return is reachable before the loop over the parents has finished: " + f.DescribePath(path))
-						break
-					}
+		failure := ""
+		if row.loop {
+			for _, e := range hits {
+				failure = c13LoopRow(vw, row, e, negs, owes)
+				if failure == "" {
+					break
 				}
-				continue
 			}
-			path, found := core.PathQuery{F: f, From: f.Entry(), Target: core.PointSet(r.pt), AvoidEdge: func(b *cfg.Block, s int) bool {
-				if rs, isHit := comp[b]; isHit && s == 1-rs {
-					return true
-				}
-				return escape(b, s)
-			}}.Find()
-			if found {
-				fail("the accepting `return " + r.what + "` is reachable without the guard having passed, path " + f.DescribePath(path))
+		} else {
+			guard := func(e *c13VEdge) bool { return e.kind == c13EdgeBranch && e.hasAny(negs) }
+			if n, path := vw.search(entry, guard, nil, owes); n != nil {
+				failure = "the accepting `return " + n.outcome.what + "` is reachable without the guard having passed, path " + vw.describe(path, n)
 			}
 		}
-		if ok {
-			how := "the edge on which it holds reaches only non-nil error returns, and every accepting return lies behind the complementary edge"
-			if row.loop {
-				how = "evaluated on every iteration of a complete range over all parents whose exit dominates the accepting return; the bad edge reaches only non-nil error returns"
-			}
-			if len(hits) == 0 && delegated {
-				how = "the checker's verdict is returned directly (tail call) and no other accepting return bypasses it"
-			}
-			if row.how != "" {
-				c.Pass(construct, "T8 DecisionTable", row.how)
-			} else {
-				c.Pass(construct, "T8 DecisionTable", "rejected: "+how)
-			}
-			res.guards++
-			res.byTag[row.tag]++
-			res.rowHit[row.name] = hits
+		if failure != "" {
+			c.Fail(construct, "T8 DecisionTable", pos, failure+": "+row.breaks)
+			continue
 		}
+		how := "an edge on which it holds reaches only non-nil error results, and every accepting result lies behind an edge implying the opposite"
+		if row.loop {
+			how = "evaluated on every iteration of a complete loop over all parents whose exit every accepting path passes; the bad edge reaches only non-nil error results"
+		}
+		if len(hits) == 0 && delegated {
+			how = "the checker's verdict is returned directly and no other accepting result bypasses it"
+		}
+		if row.how != "" {
+			c.Pass(construct, "T8 DecisionTable", row.how)
+		} else {
+			c.Pass(construct, "T8 DecisionTable", "rejected: "+how)
+		}
+		res.guards++
+		res.byTag[row.tag]++
+		res.rowHit[row.name] = hits
 	}
 	// rejecting alternatives outside the table narrow acceptance (or are in a form the rule cannot read)
-	for _, e := range res.edges {
-		for i, a := range e.alts {
-			if !e.hit[i] {
-				c.Undecided(who+"|extra rejecting guard", "T8 DecisionTable", e.cond.Pos(), "an edge that only rejects carries the condition `"+a+"`, which is not a row of the property's table (or is written in a form the rule cannot normalise): well-formed inputs may be rejected, or a required row is written differently")
+	if opt.extras {
+		seen := map[string]bool{}
+		for _, re := range rej {
+			if re.hit {
+				continue
 			}
+			k := fmt.Sprintf("%d/%d/%s", re.e.cond.Pos(), re.e.succ, strings.Join(re.e.atoms, " && "))
+			if seen[k] {
+				continue
+			}
+			seen[k] = true
+			c.Undecided(who+"|extra rejecting guard", "T8 DecisionTable", re.e.cond.Pos(), "an edge that only rejects carries the condition `"+strings.Join(re.e.atoms, " && ")+"`, which is not a row of the property's table (or is written in a form the rule cannot normalise): well-formed inputs may be rejected, or a required row is written differently")
 		}
 	}
 	return res
 }
 
+// c13LoopRow decides a per-element row for one rejecting edge: the edge tests the element of exactly one
+// iteration over the whole collection, every iteration passes an edge implying the negated condition
+// before it reaches the next element, and no accepting result is reachable without passing the loop's exit.
+func c13LoopRow(vw *c13View, row c13Row, e *c13VEdge, negs map[string]bool, owes func(*c13Node) bool) string {
+	if len(e.loops) != 1 {
+		return "the guard does not test the element of one iteration over the whole list, so it is not evaluated once per element"
+	}
+	l := e.loops[0]
+	if l.partial != "" {
+		return "the loop around the guard does not visit every element (" + l.partial + ")"
+	}
+	if l.from > 0 && !row.fromOne {
+		return "the loop around the guard starts at index 1: the first element is never tested"
+	}
+	lf, g := l.env.fr, l.env.f
+	head, done, body := c13LoopBlocks(g, l.stmt)
+	_, complete := loopDone(g, l.stmt)
+	if head == nil || done == nil || body == nil {
+		return "loop structure not recognised"
+	}
+	if !complete {
+		return "the loop around the guard can be left early (break), later elements are not checked"
+	}
+	guard := func(x *c13VEdge) bool { return x.kind == c13EdgeBranch && x.hasAny(negs) && c13HasLoop(x.loops, l) }
+	next := func(n *c13Node) bool { return n.fr == lf && n.i == 0 && (n.b == head || n.b == done) }
+	if n, _ := vw.search(vw.nodesAt(lf, body), guard, nil, next); n != nil {
+		return "an iteration can reach the next element without evaluating the guard (some elements are skipped)"
+	}
+	if n, path := vw.search([]*c13Node{vw.entry}, nil, vw.atBlock(lf, done), owes); n != nil {
+		return "the accepting return is reachable before the loop around the guard has finished: " + vw.describe(path, n)
+	}
+	return ""
+}
+
 // ---------------------------------------------------------------------------
+
+// c13SamePkg: splice the helpers of the root's own package.
+func c13SamePkg(root *core.FuncInfo) func(*core.FuncInfo) bool {
+	return func(g *core.FuncInfo) bool { return g.Pkg == root.Pkg }
+}
 
 func runC13(c *core.Ctx) {
 	guards := 0
 	fieldsUpper, fieldsZero := 0, 0
 	fields := []string{"seq", "epoch", "frame", "lamport"}
 
-	c.Clause("C13.limits", func() {
-		f := c.Fn(c13BasicT + ".checkLimits")
-		ev := f.Param(0)
-		c.Need(ev != nil, "checkLimits has a named event parameter")
-		env := c13NewEnv(f, ev, nil, false)
-		var rows []c13Row
-		for _, fld := range fields {
-			rows = append(rows, c13Row{name: fld + " >= 2^31-2", tag: "upper", alts: []string{c13L(c13Bound + " - " + fld + " <= 0")},
-				breaks: "an event whose " + fld + " is 2^31-2 or larger (or, with a shifted bound, a different range than the property's) is accepted/rejected wrongly"})
+	// the tables of basiccheck are decided on one inlined view of its entry point, whatever helpers
+	// (checkLimits, checkInited, predicates) the tests are distributed over
+	var limitRows, initedRows []c13Row
+	for _, fld := range fields {
+		limitRows = append(limitRows, c13Row{name: fld + " >= 2^31-2", tag: "upper", alts: []string{c13L(c13Bound + " - " + fld + " <= 0")},
+			breaks: "an event whose " + fld + " is 2^31-2 or larger (or, with a shifted bound, a different range than the property's) is accepted/rejected wrongly"})
+	}
+	for _, fld := range fields {
+		initedRows = append(initedRows, c13Row{name: fld + " == 0", tag: "zero", alts: []string{c13L(fld + " <= 0"), c13L(fld + " == 0")},
+			breaks: "an event with " + fld + " = 0 is accepted"})
+	}
+	initedRows = append(initedRows, c13Row{name: "seq > 1 without parents", tag: "guard",
+		alts:   []string{c13And(c13L("2 - seq <= 0"), c13L("nparents == 0")), c13And(c13L("2 - seq <= 0"), c13L("nparents <= 0"))},
+		breaks: "a non-first event without parents is accepted (or first events without parents are rejected)"})
+	dupRow := c13Row{name: "duplicate parents", tag: "guard", alts: []string{c13L("nparents - nset != 0"), c13L("nset - nparents + 1 <= 0")}, breaks: "an event naming the same parent twice is accepted"}
+	var basicVw *c13View
+	basicView := func() *c13View {
+		if basicVw == nil {
+			f := c.Fn(c13BasicT + ".Validate")
+			ev := f.Param(0)
+			c.Need(ev != nil, "basiccheck.Validate has a named event parameter")
+			basicVw = c13NewView(f, c13SamePkg(f), c13MkEnv(ev, nil, false))
+			basicVw.build()
 		}
-		r := c13Table(c, env, c13ErrReturns(env), rows)
+		return basicVw
+	}
+	quiet := func(rows []c13Row) []c13Row {
+		out := append([]c13Row(nil), rows...)
+		for i := range out {
+			out[i].quiet = true
+		}
+		return out
+	}
+
+	c.Clause("C13.limits", func() {
+		r := c13Table(c, basicView(), limitRows, c13TableOpt{})
 		guards += r.guards
 		fieldsUpper = r.byTag["upper"]
 	})
 
 	c.Clause("C13.inited", func() {
-		f := c.Fn(c13BasicT + ".checkInited")
-		ev := f.Param(0)
-		c.Need(ev != nil, "checkInited has a named event parameter")
-		env := c13NewEnv(f, ev, nil, false)
-		var rows []c13Row
-		for _, fld := range fields {
-			rows = append(rows, c13Row{name: fld + " == 0", tag: "zero", alts: []string{c13L(fld + " <= 0"), c13L(fld + " == 0")},
-				breaks: "an event with " + fld + " = 0 is accepted"})
-		}
-		rows = append(rows, c13Row{name: "seq > 1 without parents", tag: "guard",
-			alts:   []string{c13And(c13L("2 - seq <= 0"), c13L("nparents == 0")), c13And(c13L("2 - seq <= 0"), c13L("nparents <= 0"))},
-			breaks: "a non-first event without parents is accepted (or first events without parents are rejected)"})
-		r := c13Table(c, env, c13ErrReturns(env), rows)
+		r := c13Table(c, basicView(), initedRows, c13TableOpt{})
 		guards += r.guards
 		fieldsZero = r.byTag["zero"]
 	})
 
 	c.Clause("C13.basic", func() {
-		f := c.Fn(c13BasicT + ".Validate")
-		ev := f.Param(0)
-		c.Need(ev != nil, "basiccheck.Validate has a named event parameter")
-		lim, ini := c13BasicT+".checkLimits", c13BasicT+".checkInited"
-		env := c13NewEnv(f, ev, nil, false, lim, ini)
-		rows := []c13Row{
-			{name: "checkLimits error propagated", tag: "call", callee: lim, args: []*types.Var{ev}, alts: []string{c13Not("err:" + lim + " == nil")}, breaks: "events with huge field values are accepted"},
-			{name: "checkInited error propagated", tag: "call", callee: ini, args: []*types.Var{ev}, alts: []string{c13Not("err:" + ini + " == nil")}, breaks: "events with zero fields or missing parents are accepted"},
-			{name: "duplicate parents", tag: "guard", alts: []string{c13L("nparents - nset != 0"), c13L("nset - nparents + 1 <= 0")}, breaks: "an event naming the same parent twice is accepted"},
-		}
-		r := c13Table(c, env, c13ErrReturns(env, lim, ini), rows)
+		rows := append(append(quiet(limitRows), quiet(initedRows)...), dupRow)
+		r := c13Table(c, basicView(), rows, c13TableOpt{extras: true})
 		guards += r.guards
 		// the set really holds every parent: Events.Set ranges over the whole receiver and inserts each element
 		sf := c.Fn(c13SetFn)
@@ -1035,32 +1263,48 @@ func runC13(c *core.Ctx) {
 		f := c.Fn(c13EpochT + ".Validate")
 		ev := f.Param(0)
 		c.Need(ev != nil, "epochcheck.Validate has a named event parameter")
-		env := c13NewEnv(f, ev, nil, false)
+		vw := c13NewView(f, c13SamePkg(f), c13MkEnv(ev, nil, false))
+		vw.build()
 		rows := []c13Row{
 			{name: "epoch != current epoch", tag: "guard", alts: []string{c13L("epoch - cur != 0")}, breaks: "an event of another epoch is accepted (or the comparison is not with the reader's current epoch)"},
 			{name: "creator not a current validator", tag: "guard", alts: []string{c13Not("exists(creator)")}, breaks: "an event whose creator is not in the current validator group is accepted"},
 		}
-		r := c13Table(c, env, c13ErrReturns(env), rows)
+		r := c13Table(c, vw, rows, c13TableOpt{extras: true})
 		guards += r.guards
 		// order: the membership test is meaningful only for the current epoch's group
-		for _, cs := range f.CallsTo(c13Exists) {
-			ok, path := f.GuardedBy(cs.Pt, func(ft core.Fact) bool { return env.atomOf(ft).String() == c13L("epoch - cur == 0") })
-			c.Check(ok, "Validate|epoch test before membership test", "T4 GuardedBy", cs.Pos(), "validators.Exists is consulted only on the edge where the event's epoch is the current one", "the validator group of the current epoch is consulted for an event of another epoch: such an event is reported as unauthorised (ErrAuth) instead of not relevant, path "+f.DescribePath(path))
+		sameEpoch := c13L("epoch - cur == 0")
+		nEx, nRd := 0, 0
+		for _, fr := range vw.frames {
+			nEx += len(fr.f.CallsTo(c13Exists))
+			nRd += len(fr.f.CallsTo(c13Reader))
 		}
-		c.ExpectAtLeast("validators.Exists call in epochcheck", len(f.CallsTo(c13Exists)), 1)
-		c.ExpectAtLeast("GetEpochValidators call in epochcheck", len(f.CallsTo(c13Reader)), 1)
+		checked := map[*c13Node]bool{}
+		for _, e := range vw.branchEdges() {
+			if !(e.has("exists(creator)") || e.has(c13Not("exists(creator)"))) || checked[e.from] {
+				continue
+			}
+			checked[e.from] = true
+			n, path := vw.search([]*c13Node{vw.entry}, func(x *c13VEdge) bool { return x.kind == c13EdgeBranch && x.has(sameEpoch) }, nil, func(n *c13Node) bool { return n == e.from })
+			c.Check(n == nil, "Validate|epoch test before membership test", "T4 GuardedBy", e.cond.Pos(), "validators.Exists is consulted only on the edge where the event's epoch is the current one", "the validator group of the current epoch is consulted for an event of another epoch: such an event is reported as unauthorised (ErrAuth) instead of not relevant, path "+vw.describe(path, n))
+		}
+		c.ExpectAtLeast("validators.Exists call in epochcheck", nEx, 1)
+		c.ExpectAtLeast("GetEpochValidators call in epochcheck", nRd, 1)
 	})
 
 	c.Clause("C13.parents", func() {
 		f := c.Fn(c13ParentsT + ".Validate")
 		ev, ps := f.Param(0), f.Param(1)
 		c.Need(ev != nil && ps != nil, "parentscheck.Validate has named event and parents parameters")
-		env := c13NewEnv(f, ev, ps, false)
+		vw := c13NewView(f, c13SamePkg(f), c13MkEnv(ev, ps, false))
+		// the value of a helper that returns the folded maximum (or another nameable quantity)
+		vw.valuer = func(fr *c13Frame, e ast.Expr) string { return fr.env.atom(core.StripConv(fr.f.Info(), e)) }
+		vw.build()
 		seq1, spNil := c13L("seq - 1 == 0"), "selfParent == nil"
 		noSelf := []string{spNil, seq1}
+		lamportRow := "lamport != max(parent lamports)+1"
 		rows := []c13Row{
 			{name: "parents argument length", tag: "arity", alts: []string{c13L("nargs - nparents != 0")}, breaks: "the per-index pairing of e.Parents()[i] with parents[i] (and parents[0]) is applied to lists of different length"},
-			{name: "lamport != max(parent lamports)+1", tag: "guard", alts: []string{c13L("lamport - max - 1 != 0")}, breaks: "an event whose Lamport time is not one more than the largest parent Lamport time is accepted"},
+			{name: lamportRow, tag: "guard", alts: []string{c13L("lamport - max - 1 != 0")}, breaks: "an event whose Lamport time is not one more than the largest parent Lamport time is accepted"},
 			{name: "same creator xor self-parent, every parent", tag: "guard", loop: true,
 				alts:   []string{c13Xor(c13L("creator - p.creator == 0"), "isSelfParent(pid)")},
 				breaks: "an event with a second parent by its own creator, or whose self-parent is by another creator, is accepted"},
@@ -1069,21 +1313,26 @@ func runC13(c *core.Ctx) {
 			{name: "self-parent is not parents[0]", tag: "guard", unless: noSelf, alts: []string{c13Not("isSelfParent(p0id)")}, breaks: "an event whose self-parent is not its first parent is accepted (the sequence test is then applied to the wrong parent)"},
 			{name: "seq != self-parent seq + 1", tag: "guard", unless: noSelf, alts: []string{c13L("seq - p0.seq - 1 != 0")}, breaks: "an event whose sequence is not one more than its self-parent's is accepted"},
 		}
-		r := c13Table(c, env, c13ErrReturns(env), rows)
+		r := c13Table(c, vw, rows, c13TableOpt{extras: true})
 		guards += r.guards - r.byTag["arity"]
 
-		// the maximum is folded from 0 over every parent before the Lamport guard
+		// the maximum is folded from 0 over every parent before the Lamport guard (in whichever frame of
+		// the view the fold lives)
 		var maxV *types.Var
-		nMax := 0
-		for v, role := range env.vars {
-			if strings.HasPrefix(role, "max") {
-				nMax++
-				if role == "max" {
-					maxV = v
+		var env *c13Env
+		maxVars := map[*types.Var]bool{}
+		for _, fr := range vw.frames {
+			for v, role := range fr.env.vars {
+				if strings.HasPrefix(role, "max") && !maxVars[v] {
+					maxVars[v] = true
+					if role == "max" {
+						maxV, env = v, fr.env
+					}
 				}
 			}
 		}
-		c.Need(nMax == 1 && maxV != nil, "exactly one running-maximum variable assigned inside a range over the parents")
+		c.Need(len(maxVars) == 1 && maxV != nil, "exactly one running-maximum variable assigned inside a loop over the parents")
+		f = env.f
 		var init, fold *assignment
 		as := assignsToVar(f, maxV)
 		for i := range as {
@@ -1102,10 +1351,10 @@ func runC13(c *core.Ctx) {
 		done, complete := loopDone(f, l.stmt)
 		head, _ := f.LoopOf(l.stmt)
 		body := c13LoopBody(f, l.stmt)
-		c.Need(done != nil && head != nil && body != nil, "range loop structure of the Lamport fold")
+		c.Need(done != nil && head != nil && body != nil, "loop structure of the Lamport fold")
 		// form of the update
 		formOK, everyIter := false, false
-		env.used = map[ast.Stmt]bool{}
+		vw.cur = nil
 		if call := isCallTo(f, fold.RHS, c13MaxFn); call != nil && len(call.Args) == 2 && fold.Tok == token.ASSIGN {
 			a0, a1 := env.atom(core.StripConv(f.Info(), call.Args[0])), env.atom(core.StripConv(f.Info(), call.Args[1]))
 			formOK = a0 == "max" && a1 == "p.lamport" || a0 == "p.lamport" && a1 == "max"
@@ -1124,9 +1373,9 @@ func runC13(c *core.Ctx) {
 			l.partial = "the loop starts at index 1"
 		}
 		c.Check(everyIter && complete && l.partial == "", "Validate|maximum over every parent", "T7 Pairing (loop)", l.stmt.Pos(), "the update runs on every iteration of a loop over the whole parents list (from the first to the last element), which has no early exit", "some parent can be skipped by the maximum (continue/break, or a partial iteration"+c13Why(l.partial)+"): an event with Lamport time not above that parent's is accepted")
-		for _, e := range r.rowHit["lamport != max(parent lamports)+1"] {
-			dom, path := mustPassBlockBefore(f, done, core.Point{B: e.b, I: len(e.b.Nodes) - 1})
-			c.Check(dom, "Validate|Lamport guard after the fold", "T2 Dominates (loop)", e.cond.Pos(), "the Lamport guard is evaluated only after the loop over all parents has finished", "the Lamport guard can be evaluated before all parents are folded: "+f.DescribePath(path))
+		for _, e := range r.rowHit[lamportRow] {
+			n, path := vw.search([]*c13Node{vw.entry}, nil, vw.atBlock(env.fr, done), func(n *c13Node) bool { return n == e.from })
+			c.Check(n == nil, "Validate|Lamport guard after the fold", "T2 Dominates (loop)", e.cond.Pos(), "the Lamport guard is evaluated only after the loop over all parents has finished", "the Lamport guard can be evaluated before all parents are folded: "+vw.describe(path, n))
 		}
 		// idx.MaxLamport returns the larger argument
 		mf := c.Fn(c13MaxFn)
@@ -1175,19 +1424,24 @@ func runC13(c *core.Ctx) {
 		ev, ps := f.Param(0), f.Param(1)
 		c.Need(ev != nil && ps != nil, "Checkers.Validate has named event and parents parameters")
 		names := []string{c13BasicT + ".Validate", c13EpochT + ".Validate", c13ParentsT + ".Validate"}
-		env := c13NewEnv(f, ev, ps, false, names...)
+		vw := c13NewView(f, c13SamePkg(f), c13MkEnv(ev, ps, false))
+		vw.build()
 		var rows []c13Row
 		for i, n := range names {
-			args := []*types.Var{ev}
+			roles := []string{"ev"}
 			if i == 2 {
-				args = append(args, ps)
+				roles = append(roles, "parents")
 			}
 			what := []string{"basic (limits, zero fields, duplicate parents)", "epoch and creator", "Lamport, self-parent and sequence"}[i]
-			rows = append(rows, c13Row{name: []string{"basiccheck", "epochcheck", "parentscheck"}[i] + " error propagated", tag: "call", callee: n, args: args, alts: []string{c13Not("err:" + n + " == nil")},
+			rows = append(rows, c13Row{name: []string{"basiccheck", "epochcheck", "parentscheck"}[i] + " error propagated", tag: "call", callee: n, roles: roles, alts: []string{c13Not("err:" + n + " == nil")},
 				breaks: "events failing the " + what + " checks are accepted by the combined Validate"})
-			c.ExpectAtLeast("calls of "+[]string{"basiccheck", "epochcheck", "parentscheck"}[i]+".Validate in Checkers.Validate", len(f.CallsTo(n)), 1)
+			nCalls := 0
+			for _, fr := range vw.frames {
+				nCalls += len(fr.f.CallsTo(n))
+			}
+			c.ExpectAtLeast("calls of "+[]string{"basiccheck", "epochcheck", "parentscheck"}[i]+".Validate in Checkers.Validate", nCalls, 1)
 		}
-		r := c13Table(c, env, c13ErrReturns(env, names...), rows)
+		r := c13Table(c, vw, rows, c13TableOpt{extras: true})
 		guards += r.guards
 	})
 
@@ -1196,69 +1450,79 @@ func runC13(c *core.Ctx) {
 		f := c.Fn(c13BaseT + ".SelfParent")
 		recv := f.Recv()
 		c.Need(recv != nil, "BaseEvent.SelfParent has a named receiver")
-		env := c13NewEnv(f, recv, nil, true)
-		var rets []c13Ret
-		for _, pt := range f.ReturnPoints() {
-			r := pt.Node().(*ast.ReturnStmt)
-			ret := c13Ret{pt: pt, stmt: r, kind: c13Unknown}
-			if len(r.Results) == 1 {
-				e := env.res(r.Results[0])
-				ret.what = exprStr(r.Results[0])
-				if core.IsNil(f.Info(), e) {
-					ret.kind = c13Reject // "no self-parent"
-				} else if u, ok := e.(*ast.UnaryExpr); ok && u.Op == token.AND {
-					if ix, ok := ast.Unparen(u.X).(*ast.IndexExpr); ok && env.isParentsCall(ix.X) && core.IsConstInt(f.Info(), ix.Index, 0) {
-						ret.kind = c13Accept
+		vw := c13NewView(f, nil, c13MkEnv(recv, nil, true))
+		vw.build()
+		env := vw.root.env
+		nFirst := 0
+		firstSeen := map[*ast.ReturnStmt]bool{}
+		kindSP := func(o *c13Outcome) (int, string) {
+			if o.panic {
+				return c13Panic, ""
+			}
+			if o.stmt == nil || len(o.stmt.Results) != 1 {
+				return c13Unknown, ""
+			}
+			e := env.res(o.stmt.Results[0])
+			if core.IsNil(f.Info(), e) {
+				return c13Reject, "" // "no self-parent"
+			}
+			if u, ok := e.(*ast.UnaryExpr); ok && u.Op == token.AND {
+				if ix, ok := ast.Unparen(u.X).(*ast.IndexExpr); ok && env.isParentsCall(ix.X) && core.IsConstInt(f.Info(), ix.Index, 0) {
+					if !firstSeen[o.stmt] {
+						firstSeen[o.stmt] = true
+						nFirst++
 					}
+					return c13Accept, ""
 				}
 			}
-			rets = append(rets, ret)
+			return c13Unknown, ""
 		}
 		rows := []c13Row{
 			{name: "no self-parent when seq <= 1", tag: "event", how: "the edge seq <= 1 reaches only `return nil`, and &parents[0] is returned only behind the complementary edge", alts: []string{c13L("seq - 1 <= 0")}, breaks: "SelfParent() is nil for the wrong sequence numbers, so parentscheck's (Seq == 1) <=> (SelfParent == nil) test rejects well-formed events or accepts first events with a self-parent"},
 			{name: "no self-parent without parents", tag: "event", how: "the edge len(parents) == 0 reaches only `return nil`, and &parents[0] is returned only behind the complementary edge", alts: []string{c13L("nparents == 0"), c13L("nparents <= 0")}, breaks: "SelfParent() indexes an empty parents list"},
 		}
-		c13Table(c, env, rets, rows)
-		nFirst := 0
-		for _, r := range rets {
-			if r.kind == c13Accept {
-				nFirst++
-			}
-		}
+		c13Table(c, vw, rows, c13TableOpt{kindOf: kindSP, extras: true})
 		c.ExpectAtLeast("returns of &parents[0] in BaseEvent.SelfParent", nFirst, 1)
 
 		// IsSelfParent: false without self-parent, otherwise equality with *SelfParent()
 		g := c.Fn(c13BaseT + ".IsSelfParent")
 		grecv, hp := g.Recv(), g.Param(0)
 		c.Need(grecv != nil && hp != nil, "BaseEvent.IsSelfParent has named receiver and parameter")
-		genv := c13NewEnv(g, grecv, nil, true)
-		var grets []c13Ret
+		gvw := c13NewView(g, nil, c13MkEnv(grecv, nil, true))
+		gvw.build()
+		genv := gvw.root.env
 		nCmp := 0
-		for _, pt := range g.ReturnPoints() {
-			r := pt.Node().(*ast.ReturnStmt)
-			ret := c13Ret{pt: pt, stmt: r, kind: c13Unknown}
-			if len(r.Results) == 1 {
-				e := genv.res(r.Results[0])
-				ret.what = exprStr(r.Results[0])
-				if tv, ok := g.Info().Types[e]; ok && tv.Value != nil && tv.Value.String() == "false" {
-					ret.kind = c13Reject
-				} else if be, ok := e.(*ast.BinaryExpr); ok && be.Op == token.EQL {
-					// either operand order; the dereferenced pointer may be held in a temporary
-					l, rr := genv.res(be.X), genv.res(be.Y)
-					if varOf(g, l) == hp {
-						l, rr = rr, l
-					}
-					if st, ok := l.(*ast.StarExpr); ok && varOf(g, rr) == hp {
-						if genv.ptrAtom(st.X) == "selfParent" {
-							ret.kind = c13Accept
+		cmpSeen := map[*ast.ReturnStmt]bool{}
+		kindISP := func(o *c13Outcome) (int, string) {
+			if o.panic {
+				return c13Panic, ""
+			}
+			if o.stmt == nil || len(o.stmt.Results) != 1 {
+				return c13Unknown, ""
+			}
+			e := genv.res(o.stmt.Results[0])
+			if tv, ok := g.Info().Types[e]; ok && tv.Value != nil && tv.Value.String() == "false" {
+				return c13Reject, ""
+			}
+			if be, ok := e.(*ast.BinaryExpr); ok && be.Op == token.EQL {
+				// either operand order; the dereferenced pointer may be held in a temporary
+				l, rr := genv.res(be.X), genv.res(be.Y)
+				if varOf(g, l) == hp {
+					l, rr = rr, l
+				}
+				if st, ok := l.(*ast.StarExpr); ok && varOf(g, rr) == hp {
+					if genv.ptrAtom(st.X) == "selfParent" {
+						if !cmpSeen[o.stmt] {
+							cmpSeen[o.stmt] = true
 							nCmp++
 						}
+						return c13Accept, ""
 					}
 				}
 			}
-			grets = append(grets, ret)
+			return c13Unknown, ""
 		}
-		c13Table(c, genv, grets, []c13Row{{name: "false without a self-parent", tag: "event", how: "the edge SelfParent() == nil reaches only `return false`, and the comparison with *SelfParent() lies behind the complementary edge", alts: []string{"selfParent == nil"}, breaks: "IsSelfParent dereferences a nil self-parent or claims a self-parent for an event that has none"}})
+		c13Table(c, gvw, []c13Row{{name: "false without a self-parent", tag: "event", how: "the edge SelfParent() == nil reaches only `return false`, and the comparison with *SelfParent() lies behind the complementary edge", alts: []string{"selfParent == nil"}, breaks: "IsSelfParent dereferences a nil self-parent or claims a self-parent for an event that has none"}}, c13TableOpt{kindOf: kindISP, extras: true})
 		c.ExpectAtLeast("returns of *SelfParent() == hash in BaseEvent.IsSelfParent", nCmp, 1)
 
 		// getters return their own field
